@@ -169,6 +169,13 @@ def run(ctx):
         for j in range(0, len(claims), 8):
             ctx.prove("%s/%d" % (name, j // 8), z3.And(*claims[j : j + 8]), [], family="tree", params=params, abs_cons=False, group="trees-depth%d" % (1 if name.startswith("d1") else 2))
 
+    def safe_check_tree(desc, real, spec, tags, name):
+        try:
+            check_tree(desc, real, spec, tags, name)
+        except (ValueError, TypeError, AttributeError, IndexError, RuntimeError, AssertionError) as ex:
+            # evaluating a well-typed tree (weak form, matvec, strong form, application to a grid function) must not raise
+            ctx.violation(name + "/evaluation-raises", "tree", {"tree": repr(desc)}, "%s: %s" % (type(ex).__name__, str(ex)[:200]))
+
     n_ill = 0
     results1 = []
     t0 = time.time()
@@ -198,7 +205,7 @@ def run(ctx):
                 n_ill += 1
             continue
         results1.append(r)
-        check_tree(desc, real, spec, tags, name)
+        safe_check_tree(desc, real, spec, tags, name)
     ctx.sample({"depth1_trees": len(results1), "ill_typed_rejected": n_ill})
     # depth 2: op(depth1, leaf/depth1)
     cands = []
@@ -227,7 +234,7 @@ def run(ctx):
         if spec is None:
             continue
         done += 1
-        check_tree(desc, real, spec, tags, "d2/%d/%s" % (k, op))
+        safe_check_tree(desc, real, spec, tags, "d2/%d/%s" % (k, op))
     ctx.sample({"depth2_trees_checked": done, "depth2_candidates": len(cands)})
     ctx.encode_secs["trees"] = round(time.time() - t0, 2)
     A = leaves["A"]
@@ -359,6 +366,25 @@ def concrete(family, params):
         cmp("strong", A.strong_form().to_dense(), np.linalg.solve(Mp1, mA))
         f = b.GridFunction(p1, coefficients=x.real)
         cmp("A*f", (A * f).projections(), mA @ x.real)
+        # products whose factors are tested against DIFFERENT spaces: everything derived from the product's declared spaces
+        try:
+            CD = C * D  # D: p1 -> dp0 tested with dp0, C: dp0 -> p1 tested with p1
+            mCD = mC @ np.linalg.solve(Mdp0, mD)
+            if CD.dual_to_range is not p1 or CD.range is not p1 or CD.domain is not p1:
+                worst, bad = 1.0, "spaces of C*D"
+            cmp("strong(C*D)", CD.strong_form().to_dense(), np.linalg.solve(Mp1, mCD))
+            cmp("A*(C*D)", (A * CD).weak_form().to_dense(), mA @ np.linalg.solve(Mp1, mCD))
+            cmp("(C*D)+A", (CD + A).weak_form().to_dense(), mCD + mA)
+            img = CD * f
+            cmp("((C*D)*f).projections", img.projections(), mCD @ x.real)
+            cmp("((C*D)*f).coefficients", img.coefficients, np.linalg.solve(Mp1, mCD @ x.real))
+            DC = D * C  # C first: dp0 -> p1 tested p1, then D: p1 -> dp0 tested dp0
+            mDC = mD @ np.linalg.solve(Mp1, mC)
+            cmp("strong(D*C)", DC.strong_form().to_dense(), np.linalg.solve(Mdp0, mDC))
+            E_ = L.single_layer(dp0, dp0, dp0)
+            cmp("(D*C)+E", (DC + E_).weak_form().to_dense(), mDC + E_.weak_form().to_dense())
+        except Exception as ex:  # noqa: BLE001
+            return {"gap": 1.0, "raised": "%s: %s" % (type(ex).__name__, str(ex)[:160]), "key": "tree/product-with-different-duals/raises"}
         for name, fn in (("A+D", lambda: A + D), ("A*D", lambda: (A * D)), ("D+C", lambda: D + C)):
             try:
                 fn().weak_form().to_dense()
